@@ -510,11 +510,12 @@ Fixpoint branches_reads (k : kind) (p : pstate mstate) (reads : list bytes) : li
 Definition case_branches (c : case) : list nat := branches_reads (c_kind c) init_state (c_reads c).
 
 (* the C13 check drives the parsers directly and through the real WSGI server *)
-Inductive c13case := KMsg (c : case) | KServer (c : scase).
+Inductive c13case := KMsg (c : case) | KServer (c : scase) | KIdle (c : hcase).
 Definition check_c13 (c : c13case) : bool :=
-  match c with KMsg c => check_case c | KServer c => check_scase c end.
+  match c with KMsg c => check_case c | KServer c => check_scase c | KIdle c => check_hcase c end.
 Definition c13_branches (c : c13case) : list nat :=
   match c with
   | KMsg c => case_branches c
   | KServer c => branches_reads Req init_state (s_reads c)
+  | KIdle _ => []
   end.
